@@ -285,3 +285,8 @@ def run(ck):
     _r2.check_read_first(ck, prog, "C08-READFIRST", files={"simple_coder.c", "delta_common.c", "lzma2_encoder.c", "lzma_encoder.c",
                                                            "lz_encoder.c", "block_encoder.c"})
     ck.floor("C08-READFIRST", 12)
+    # every Block a worker emits starts with lzma_block_header_encode() into a recycled output buffer: layout, padding
+    # and CRC32 of the header (C02), and LZMA_FULL_BARRIER/LZMA_FULL_FLUSH keep their own states in lzma_code() (C11)
+    C02.check_block_header(ck, prog, rule="C08-HDR", floor=9)
+    from . import C11
+    C11.check_fsm(ck, prog)
